@@ -167,6 +167,17 @@ def instrumented(est=None, shuffle_wrapper=None):
         return w
 
     D.np = obs.np
+    # the same objects under other names (`from numpy.random import default_rng`, `import numpy.random as npr`, `import numpy`)
+    from common import alias_patches
+    for k_, v_ in alias_patches(D, [(np.random.default_rng, obs.np.random.default_rng), (np.random, obs.np.random), (np, obs.np)]).items():
+        if k_ not in saved:
+            saved[k_] = getattr(D, k_)
+            setattr(D, k_, v_)
+    from common import patched_everywhere
+    import importlib
+    real_cmi = importlib.import_module("causationentropy.core.information.conditional_mutual_information").conditional_mutual_information
+    everywhere = patched_everywhere([(real_cmi, est), (real_shuffle, shuffle_spy)])      # also under module aliases / in the defining modules
+    everywhere.__enter__()
     if est is not None:
         D.conditional_mutual_information = est
     D.shuffle_test = shuffle_spy
@@ -177,6 +188,7 @@ def instrumented(est=None, shuffle_wrapper=None):
     try:
         yield obs
     finally:
+        everywhere.__exit__(None, None, None)
         for k, v in saved.items():
             setattr(D, k, v)
 
@@ -239,6 +251,12 @@ def observe(data, est, **params):
             G = call_form(_DN, "discover_network", _DN_CALLS // 3, data=data, **params)
         except Exception as e:  # noqa
             return {"error": type(e).__name__, "obs": obs}
+    if est is not None and hasattr(est, "calls") and not est.calls and "G" in locals() and G.number_of_edges() > 0:
+        from common import SeamBypassed
+        raise SeamBypassed("edges carry information values but the scripted estimator put in place of the dispatcher was never called")
+    if not obs.np.seeds and (obs.tests or obs.lasso):
+        from common import SeamBypassed
+        raise SeamBypassed("discover_network ran significance tests / selections but no generator creation was observed through the discovery module's NumPy names")
     perms = [p for (k, p) in obs.np.log if k == "permutation"]
     other = [k for (k, p) in obs.np.log if k != "permutation"]
     return {"G": G, "obs": obs, "perms": perms, "other_rng": other, "seeds": list(obs.np.seeds), "lasso": list(obs.lasso), "fits": list(obs.fits),
